@@ -101,6 +101,8 @@ pub use crate::variable::Variable;
 
 pub mod ast;
 pub mod functions;
+#[cfg(feature = "verif-hooks")]
+pub mod verif;
 
 use serde::ser;
 #[cfg(feature = "specialized")]
@@ -124,6 +126,8 @@ mod variable;
 lazy_static! {
     pub static ref DEFAULT_RUNTIME: Runtime = {
         let mut runtime = Runtime::new();
+        #[cfg(feature = "verif-hooks")]
+        crate::verif::runtime_init_point();
         runtime.register_builtin_functions();
         runtime
     };
